@@ -551,7 +551,7 @@ def _co_model(env, s, d, top) -> Co:  # noqa: C901, PLR0912
             rules.append("link_constant")
             continue
         if link.kind == "func":
-            fco = _co_function(env, s, env.objects[link.name])
+            fco = _co_function(env, s, env.objects[link.name], dst_spec.name)
             if (fco.verdict == NO and fco.rule.startswith("link_function: unmatched") and fld.has_default
                     and policy_allows(env, dst_spec.name, fld.name)):
                 # the documentation does not say whether a link_function whose parameters cannot be matched leaves the
@@ -599,13 +599,18 @@ def _co_model(env, s, d, top) -> Co:  # noqa: C901, PLR0912
     return Co(YES, build, rule="model", ambiguous=ambiguous)
 
 
-def _co_function(env, s, fspec: FuncSpec) -> Co:
+def _co_function(env, s, fspec: FuncSpec, dst_model=None) -> Co:
     """extended-usage.rst 'Link function': the first parameter receives the model; further (non keyword-only) parameters
     are matched by name with the converter's extra parameters; keyword-only parameters are matched by name with the
     model's fields; the default coercing mechanism is applied to every matched argument; result taken as is."""
     src_spec, src_fields = env.model_fields(s)
     getters = []
     verdicts = []
+    # the documentation gives the parameters of a linked function no location: whether coercer(..., P[Dst].name, ...)
+    # selects a function parameter called `name` is left open
+    named = {n for n, _ in fspec.pos[1:]} | {n for n, _ in fspec.kw}
+    if any(el[0] == "coercer" and el[2][0] == "field" and el[2][1] == dst_model and el[2][2] in named for el in env.recipe):
+        return Co(UNSPEC, rule="field-predicate coercer naming a parameter of a linked function")
     for i, (name, ts) in enumerate(fspec.pos):
         if i == 0:
             getters.append(("pos", lambda x, ctx: x))
